@@ -1,3 +1,4 @@
+#include "src/common/stack_guard.h"
 #include "type_inference.h"
 #include "../managers/types/manager.h"
 #include "../managers/variables/manager.h"
@@ -178,6 +179,10 @@ TypeInferenceEngine::TypeInferenceEngine(Interpreter &interpreter)
 InferredType TypeInferenceEngine::infer_type(const ASTNode *node) {
     if (!node)
         return InferredType();
+    if (cb_stack_guard::exhausted()) {
+        throw std::runtime_error(
+            "Stack limit reached: expression nesting or recursion too deep");
+    }
 
     switch (node->node_type) {
     case ASTNodeType::AST_NUMBER:
